@@ -15,12 +15,21 @@ package c07
 import (
 	"context"
 	"fmt"
+	"math/big"
+	"reflect"
+	"strconv"
 	"strings"
+	"sync"
 	"time"
 
+	"github.com/DOSNetwork/core/dosnode"
+	"github.com/DOSNetwork/core/onchain"
+	"github.com/DOSNetwork/core/p2p"
 	dkg "github.com/DOSNetwork/core/share/dkg/pedersen"
+	"github.com/golang/protobuf/proto"
 
 	"verifharness/internal/dkgnet"
+	"verifharness/internal/doubles"
 	"verifharness/internal/h"
 )
 
@@ -122,5 +131,253 @@ func genGrpK(tier string, rng *h.Rng, emit func(string)) {
 		// every residue is hit over the cases: the submitter is not always member 0
 		r := rs[rng.Intn(60)]
 		emit(fmt.Sprintf("grpk %d %d %s %s", n, 1+rng.Intn(1000), joinIDs(ids), r))
+	}
+}
+
+// ---------------------------------------------------------------- grpd (review H #6)
+//
+//	grpd <n> <gid> <ids1> <ids2> <share|noshare> <lastRand>
+//
+// n real DosNodes, each around its REAL pdkg (in-memory network of dkgnet) with its real onchainLoop and
+// queryLoop. History: the group is announced with <ids1>;
+//   share:   every member's key generation runs to completion (it holds a share);
+//   noshare: the key generation is cancelled at once (the entry exists, no share);
+// then a LogGroupDissolve event for the group goes through every node's onchainLoop
+// (`if d.isMember(groupID) { d.dkg.GroupDissolve(groupID) }`); then the group is announced again with
+// <ids2> (the same members in another order) – share: key generation to completion again; noshare: the
+// node refuses the id ("dkg: duplicate share public key"); then a LogUpdateRandom event for the group
+// goes through every onchainLoop. Printed per member:
+// "<k>:<gone|kept> <none | n=<len> id <submitter of its list>> share=<0|1> req=<to=<member of ids2>|->".
+// Oracle (line only): whatever list a member holds is ids1 or ids2, element for element; a member that
+// handles the request (sends a share) holds the LATEST announcement ids2 and addresses
+// ids2[(lastRand mod 2^64) mod n] (stale-list-used otherwise); with a share at the dissolve the entry
+// is gone after it and every non-submitter handles the request.
+
+type grpdNode struct {
+	p     *doubles.P2P
+	chain *evChain
+	node  *dosnode.DosNode
+	mu    sync.Mutex
+	to    [][]byte
+}
+
+func keygen(ctx context.Context, pd []dkg.PDKGInterface, gid string, ids [][]byte) []bool {
+	n := len(pd)
+	done := make(chan [2]int, n)
+	for k := 0; k < n; k++ {
+		go func(k int) {
+			outc, errc, err := pd[k].Grouping(ctx, gid, copyIDs(ids))
+			if err != nil {
+				done <- [2]int{k, 0}
+				return
+			}
+			for outc != nil || errc != nil {
+				select {
+				case _, ok := <-outc:
+					if ok {
+						done <- [2]int{k, 1}
+						return
+					}
+					outc = nil
+				case _, ok := <-errc:
+					if !ok {
+						errc = nil
+					}
+				case <-ctx.Done():
+					done <- [2]int{k, 0}
+					return
+				}
+			}
+			done <- [2]int{k, 0}
+		}(k)
+	}
+	fin := make([]bool, n)
+	for c := 0; c < n; c++ {
+		d := <-done
+		fin[d[0]] = d[1] == 1
+	}
+	return fin
+}
+
+func execGrpD(w []string) (res h.Result) {
+	quietOnce.Do(dkgnet.Quiet)
+	res.Nontrivial = true
+	n, gidNum, ids1, ids2, mode, r := h.Atoi(w[1]), h.BigDec(w[2]), splitIDs(w[3]), splitIDs(w[4]), w[5], h.BigDec(w[6])
+	gid := gidKey(w[2])
+	if len(ids1) != n || len(ids2) != n || (mode != "share" && mode != "noshare") {
+		panic("bad grpd line")
+	}
+	res.Class = "grpd " + mode
+	nw := dkgnet.NewNet(ids1)
+	ctx, cancel := context.WithTimeout(context.Background(), 120*time.Second)
+	defer cancel()
+	pd := make([]dkg.PDKGInterface, n)
+	nodes := make([]*grpdNode, n)
+	for k := 0; k < n; k++ {
+		pd[k] = dkg.NewPDKG(nw.Node(k, ids1), suite)
+		go pd[k].Loop()
+		gn := &grpdNode{p: doubles.NewP2P(exact(ids1[k]), 0), chain: &evChain{Chain: &doubles.Chain{BlockTime: 1, Events: make(chan interface{})}}}
+		gn.p.OnRequest = func(_ context.Context, from, to []byte, m proto.Message) (p2p.P2PMessage, error) {
+			if m == nil || reflect.ValueOf(m).IsNil() {
+				return p2p.P2PMessage{}, fmt.Errorf("nil message")
+			}
+			gn.mu.Lock()
+			gn.to = append(gn.to, append([]byte(nil), to...))
+			gn.mu.Unlock()
+			return p2p.P2PMessage{}, nil
+		}
+		gn.node = dosnode.VerifNewNode(exact(ids1[k]), gn.p, gn.chain, pd[k], 21, quiet)
+		go gn.node.VerifQueryLoop()
+		go gn.node.VerifOnchainLoop()
+		nodes[k] = gn
+	}
+	defer func() {
+		for _, gn := range nodes {
+			gn.node.VerifCancel()
+		}
+	}()
+	toAll := func(mk func() interface{}) bool {
+		for _, gn := range nodes {
+			for _, ev := range []interface{}{mk(), struct{}{}} { // the second one taken = the first one handled
+				select {
+				case gn.chain.Events <- ev:
+				case <-time.After(15 * time.Second):
+					return false
+				}
+			}
+		}
+		return true
+	}
+	var o []string
+	// 1. first announcement
+	if mode == "share" {
+		for k, ok := range keygen(ctx, pd, gid, ids1) {
+			if !ok {
+				o = append(o, fmt.Sprintf("keygen-unfinished: member %d did not finish the first key generation", k))
+			}
+		}
+	} else {
+		dead, kill := context.WithCancel(context.Background())
+		kill()
+		keygen(dead, pd, gid, ids1)
+	}
+	// 2. the dissolve event through onchainLoop
+	if !toAll(func() interface{} { return &onchain.LogGroupDissolve{GroupId: new(big.Int).Set(gidNum)} }) {
+		res.Impl, res.Oracle = "stuck event", "grp-stuck: onchainLoop did not take a chain event for 15 s"
+		return
+	}
+	after := make([][][]byte, n)
+	for k := range pd {
+		after[k] = copyIDs(pd[k].GetGroupIDs(gid))
+	}
+	// 3. the group id is announced again, the members in another order
+	fin2 := keygen(ctx, pd, gid, ids2)
+	// 4. a request event of the group
+	if !toAll(func() interface{} {
+		return &onchain.LogUpdateRandom{LastRandomness: new(big.Int).Set(r), DispatchedGroupId: new(big.Int).Set(gidNum)}
+	}) {
+		res.Impl, res.Oracle = "stuck event", "grp-stuck: onchainLoop did not take a chain event for 15 s"
+		return
+	}
+	sub2 := int(new(big.Int).Mod(new(big.Int).And(r, new(big.Int).Sub(two64, big.NewInt(1))), big.NewInt(int64(n))).Int64())
+	memberOf2 := func(id []byte) string {
+		for i := range ids2 {
+			if bytesEq(ids2[i], id) {
+				return strconv.Itoa(i)
+			}
+		}
+		return "?"
+	}
+	if mode == "share" { // every non-submitter is expected to send: wait for it, no fixed sleep
+		deadline := time.Now().Add(15 * time.Second)
+		for time.Now().Before(deadline) {
+			all := true
+			for k, gn := range nodes {
+				gn.mu.Lock()
+				if len(gn.to) == 0 && !bytesEq(ids1[k], ids2[sub2]) {
+					all = false
+				}
+				gn.mu.Unlock()
+			}
+			if all {
+				break
+			}
+			time.Sleep(2 * time.Millisecond)
+		}
+	}
+	time.Sleep(50 * time.Millisecond)
+	var parts []string
+	for k, gn := range nodes {
+		st := "gone"
+		if len(after[k]) > 0 {
+			st = "kept"
+			if !sameIDs(after[k], ids1) {
+				o = append(o, fmt.Sprintf("member-list: after the dissolve member %d holds [%.120s], announced was [%.120s]", k, joinIDs(after[k]), joinIDs(ids1)))
+			}
+		}
+		if mode == "share" && st != "gone" {
+			o = append(o, fmt.Sprintf("dissolve-ignored: member %d held a share and kept the entry after the dissolve", k))
+		}
+		got := pd[k].GetGroupIDs(gid)
+		share := pd[k].GetShareSecurity(gid) != nil
+		fin := "none"
+		if len(got) > 0 {
+			sub, tag := stageSubmitter(r, got)
+			fin = fmt.Sprintf("n=%d id %s", len(got), h.Hex(sub))
+			if tag != "" {
+				fin = tag
+			}
+			if !sameIDs(got, ids1) && !sameIDs(got, ids2) {
+				o = append(o, fmt.Sprintf("member-list: member %d holds [%.120s] for group %s, which is neither announcement", k, joinIDs(got), gid))
+			}
+		}
+		if mode == "share" && (!share || !fin2[k] || !sameIDs(got, ids2)) {
+			o = append(o, fmt.Sprintf("keygen-unfinished: member %d: after dissolve and re-announcement it holds [%.90s], share %v (announced [%.90s])", k, joinIDs(got), share, joinIDs(ids2)))
+		}
+		gn.mu.Lock()
+		to := append([][]byte(nil), gn.to...)
+		gn.mu.Unlock()
+		req := "-"
+		if len(to) > 0 {
+			req = "to=" + memberOf2(to[0])
+			if len(to) > 1 {
+				req += fmt.Sprintf("(x%d)", len(to))
+			}
+			if !sameIDs(got, ids2) {
+				o = append(o, fmt.Sprintf("stale-list-used: member %d handled a request of group %s with the list [%.120s], the latest announcement is [%.120s]", k, gid, joinIDs(got), joinIDs(ids2)))
+			} else if !bytesEq(to[0], ids2[sub2]) {
+				o = append(o, fmt.Sprintf("submitter-index: member %d sent its share to member %s, entry (lastRand mod 2^64) mod %d of the announced list is member %d", k, memberOf2(to[0]), n, sub2))
+			}
+		} else if mode == "share" && !bytesEq(ids1[k], ids2[sub2]) {
+			o = append(o, fmt.Sprintf("request-ignored: member %d holds a share of group %s and did not handle its request", k, gid))
+		}
+		parts = append(parts, fmt.Sprintf("%d:%s %s share=%d req=%s", k, st, fin, map[bool]int{true: 1, false: 0}[share], req))
+	}
+	cancel()
+	res.Impl = strings.Join(parts, " ")
+	res.Oracle = pick(o, "stale-list-used", "member-list", "submitter-index", "dissolve-ignored", "request-ignored", "keygen-unfinished")
+	return
+}
+
+func genGrpD(tier string, rng *h.Rng, emit func(string)) {
+	rs := rands(rng, false)
+	k := 2
+	if tier == "thorough" {
+		k = 8
+	}
+	for i := 0; i < k; i++ {
+		for _, mode := range []string{"share", "noshare"} {
+			n := 3 + i%2
+			ids := idList(rng, n, 0)
+			perm := rng.Perm(n)
+			if perm[0] == 0 { // another order for certain
+				perm[0], perm[1] = perm[1], perm[0]
+			}
+			ids2 := make([][]byte, n)
+			for a, b := range perm {
+				ids2[a] = ids[b]
+			}
+			emit(fmt.Sprintf("grpd %d %d %s %s %s %s", n, 1+rng.Intn(1000), joinIDs(ids), joinIDs(ids2), mode, rs[rng.Intn(60)]))
+		}
 	}
 }
